@@ -105,6 +105,23 @@ def element_exhaustive(maxel, elems=(b"..", b".", b"a", b"...")):
     return out
 
 
+def deep_paths(r, thorough):
+    """k pending names, then j '..' elements (any fixed-size bookkeeping of pending names shows at its boundary), then
+    an optional tail; relative and absolute; names of one and of several characters"""
+    out = []
+    ks = [1, 2, 7, 8, 9, 15, 16, 17, 31, 32, 33, 34, 63, 64, 65] + ([100, 127, 128, 129, 255, 256, 257, 1000] if thorough else [])
+    for k in ks:
+        for j in sorted(set([1, 2, k - 1, k, k + 1, k // 2])):
+            if j < 1:
+                continue
+            for pre in (b"", b"/"):
+                names = [(b"d%02d" % (i % 100)) if r.random() < 0.5 else b"a" for i in range(k)]
+                body = b"/".join(names + [b".."] * j)
+                for tail in (b"", b"/", b"/x", b"/."):
+                    out.append(hexs(pre + body + tail))
+    return out
+
+
 def validate_spec(ctx):
     """Coq std_normal (extracted) == libstdc++ lexically_normal, as text."""
     maxlen = 11 if ctx.tier == "thorough" else 8
@@ -144,6 +161,8 @@ def gen(ctx, seed, tier):
         cases = []
     cases += random_paths(r, 4000 if tier == "quick" else 40000)
     cases += random_paths(r, 300 if tier == "quick" else 3000, maxel=40)
+    if seed == ctx.seed:
+        cases += deep_paths(r, tier == "thorough")
     return cases
 
 
